@@ -17,6 +17,12 @@ K = 256
 T = 7.0
 
 
+def _rtol(est):
+    """'Exact' up to the rounding of a running sum of bs <= 100 equal terms in the estimate's own precision."""
+    dt = np.asarray(est).dtype
+    return max(1e-11, 256 * float(np.finfo(dt).eps)) if np.issubdtype(dt, np.inexact) else 1e-11
+
+
 def run_panel(job):
     from cola.linalg.trace.diagonal_estimation import hutchinson_diag_estimate
     cfg = job["config"]
@@ -26,6 +32,7 @@ def run_panel(job):
     dense = np.asarray(A.to_dense())
     ctx.harness_depth -= 1
     k, rand, mi = cfg["k"], cfg["rand"], cfg["max_iters"]
+    K, T = cfg.get("K", globals()["K"]), cfg.get("T", globals()["T"])
     n = A.shape[0]
     true = np.diag(dense, k)
     stats = {"panel_calls": 0, "panel_configs": 1}
@@ -48,7 +55,7 @@ def run_panel(job):
         if cfg.get("exact"):
             for key in range(8):
                 est = estimate(key)
-                if est.shape != true.shape or not np.allclose(est, true, rtol=1e-11, atol=0):
+                if est.shape != true.shape or not np.allclose(est, true, rtol=_rtol(est), atol=0):
                     viol = {"what": "Rademacher Hutchinson estimate (through cola.linalg.%s on a structured operator) of a "
                                     "diagonal operator is not exact" % cfg["what"], "structure": cfg["name"], "key": key,
                             "max_err": float(np.max(np.abs(est - true))) if est.shape == true.shape else None}
@@ -78,7 +85,7 @@ def run_panel(job):
         for key in range(8):
             est, _ = hutchinson_diag_estimate(A, k=0, tol=0.002, max_iters=mi, rand="rademacher", key=key)
             stats["panel_calls"] += 1
-            if est.shape != true.shape or not np.allclose(est, true, rtol=1e-12, atol=0):  # exact: d * z^2 = d
+            if est.shape != true.shape or not np.allclose(est, true, rtol=_rtol(est), atol=0):  # exact: d * z^2 = d
                 viol = {"what": "Rademacher Hutchinson estimate of a diagonal operator's main diagonal is not exact",
                         "key": key, "max_err": float(np.max(np.abs(est - true))) if est.shape == true.shape else None}
                 break
